@@ -281,7 +281,10 @@ def c07_delete(m, pre, post, x, recursive):
             else:
                 bad = [t for t in now if t in dead]
                 if bad:
-                    out.append(('dangling', f'surviving obj{y}.{fd["name"]} still holds deleted {bad}'))
+                    # bag-like references without opposite: the inverse bookkeeping is a set (known finding)
+                    bag = fd['many'] and not fd['unique'] and m.opp.get(fi) is None
+                    out.append(('dangling-in-nonunique-reference' if bag else 'dangling',
+                                f'surviving obj{y}.{fd["name"]} still holds deleted {bad}'))
                 want = [t for t in objs_of(pre['objs'][y]['feats'][fi]) if t not in dead]
                 if not bad and now != want:
                     out.append(('collateral', f'obj{y}.{fd["name"]} was {objs_of(pre["objs"][y]["feats"][fi])}, expected {want}, is {now}'))
